@@ -3013,6 +3013,7 @@ namespace awkward {
                 bytecodes_pointer_pop();
 
                 if (do_current_depth_ != 0  &&
+                    recursion_current_depth_ != recursion_target_depth_top  &&
                     do_abs_recursion_depth() == recursion_current_depth_) {
                   // End one step of a 'do ... loop' or a 'do ... +loop'.
                   if (do_loop_is_step()) {
@@ -3159,6 +3160,7 @@ namespace awkward {
               if (single_step) {
                 bytecodes_pointer_pop();
                 if (do_current_depth_ != 0  &&
+                    recursion_current_depth_ != recursion_target_depth_top  &&
                     do_abs_recursion_depth() == recursion_current_depth_) {
                   if (do_loop_is_step()) {
                     if (stack_cannot_pop()) {
@@ -3819,6 +3821,7 @@ namespace awkward {
           if (is_segment_done()) {
             bytecodes_pointer_pop();
             if (do_current_depth_ != 0  &&
+                recursion_current_depth_ != recursion_target_depth_top  &&
                 do_abs_recursion_depth() == recursion_current_depth_) {
               if (do_loop_is_step()) {
                 if (stack_cannot_pop()) {
@@ -3840,7 +3843,13 @@ namespace awkward {
     after_end_of_segment:
       bytecodes_pointer_pop();
 
+      // A segment that returns to the depth this run/resume/call started from
+      // is the program or the called word itself, never the body of a loop: a
+      // word called while the program is paused at the end of a loop body must
+      // not step that loop again.
+
       if (do_current_depth_ != 0  &&
+          recursion_current_depth_ != recursion_target_depth_top  &&
           do_abs_recursion_depth() == recursion_current_depth_) {
         // End one step of a 'do ... loop' or a 'do ... +loop'.
         if (do_loop_is_step()) {
